@@ -33,7 +33,7 @@ TIES = ['EXPRTXT']
 RULE = ("expression trees (every operator pair and triple in every grouping, prefix operators in every position, "
         "random trees to depth 6, literals in three bases at boundary magnitudes, bound identifiers, random spacing, "
         "redundant parentheses) rendered in their conventional reading and evaluated by eval_expression_str and through "
-        "`.dl`, `:=`, `lda.w #`, `lda.l` (only the contexts whose lexer accepts the operators); plus malformed texts and "
+        "`.dl`, `:=`, `=`, a macro argument, an `.if` condition, `lda.w #`, `lda.l` (only the contexts whose lexer accepts the operators); plus malformed texts and "
         "hand-built node lists; a case is non-trivial when the implementation produced a value; distinct by text+symbols")
 PROVED_NOTE = ("proved for all trees / all integers (induction): shunting_yard of the token list of any conventionally-read "
                "tree is its postfix form, for ANY precedence table satisfying the decidable prec_compatible (discharged each "
@@ -344,7 +344,7 @@ def tree_case(rng, tree, env, kind, extra=0.0, spacing=True):
         # exactly when an operator follows the group: `lda.l (1+2)*3`
         ctxs.append("long")
     if directive_ok(tree):
-        ctxs += ["dl", "assign"]
+        ctxs += ["dl", "assign", "sym", "marg", "ifz"]
     if any("." in i for i in ids_of(tree)):
         ctxs = ["str"]
     return {"kind": "tree", "stream": kind, "tree": tree, "env": env, "text": text, "ctxs": ctxs}
@@ -587,6 +587,12 @@ def observe(case):
                 f = lambda: _assemble(env, [".dl " + text], 0, 3)
             elif c == "assign":
                 f = lambda: _assemble(env, [f"{RESULT} := {text}", f".dl {RESULT}"], 0, 3)
+            elif c == "sym":
+                f = lambda: _assemble(env, [f"{RESULT}_s = {text}", f".dl {RESULT}_s"], 0, 3)
+            elif c == "marg":
+                f = lambda: _assemble(env, [".macro zz_valof(zz_a) {", ".dl zz_a", "}", f"zz_valof({text})"], 0, 3)
+            elif c == "ifz":
+                f = lambda: _assemble(env, [f".if {text} {{", ".db 1", "} else {", ".db 0", "}"], 0, 1)
             elif c == "imm":
                 f = lambda: _assemble(env, ["lda.w #" + text], 1, 2)
             else:
@@ -642,7 +648,8 @@ def env_term(env) -> str:
     return C.clist(list(env.items()), lambda kv: C.cpair(C.cstr(kv[0]), C.z(kv[1])))
 
 
-CTX = {"str": "XStr", "dl": "XDl", "assign": "XAssign", "imm": "XImm", "long": "XLong"}
+CTX = {"str": "XStr", "dl": "XDl", "assign": "XAssign", "imm": "XImm", "long": "XLong", "sym": "XSym", "marg": "XMarg",
+       "ifz": "XIf"}
 
 
 def coq_term(case, ob):
